@@ -16,5 +16,7 @@ func (Area) Exec(input string) string { return parentExec(input) }
 func (Area) Gen(r *rand.Rand, tier string, emit func(string)) { gen(r, tier, emit) }
 
 func (Area) Extra() map[string]any {
-	return map[string]any{"workers_started": nWorkers, "worker_crashes": nCrashes, "hangs": nHangs, "generator": genStats}
+	return map[string]any{"workers_started": nWorkers, "worker_crashes": nCrashes, "hangs": nHangs, "generator": genStats,
+		// parameter position category x malformation class -> emitted badparam cases (each must be answered 4xx)
+		"param_position_x_class": paramMatrix, "param_fields": paramFields}
 }
